@@ -1,4 +1,5 @@
 import TemprenModel.Props.C02
+import TemprenModel.Props.C01
 /-!
 # C02 (chain clause, near end first) — "… it must also succeed for acyclic chains in which a file's
 # destination is the current name of another selected file that itself moves away (e.g. renumbering
@@ -335,12 +336,20 @@ theorem near_secondPass (hl : LinkFree base) (all : List FileRec) (hplan : NearP
     (strategy : Strategy) :
     ∀ (n : Nat), n ≤ all.length → ∀ (r : Run DryState) (as : List Answer),
       Moved base all gen (fun k => DirectIdx base all gen k ∨ n ≤ k) r.st →
-      ∃ r', secondPass dryRenamer strategy (deferredFrom base gen 0 (all.take n)).reverse r as = (r', none) := by
+      ∃ r', secondPass dryRenamer strategy (deferredFrom base gen 0 (all.take n)).reverse r as = (r', none) ∧
+        Moved base all gen (fun _ => True) r'.st := by
   intro n
   induction n with
   | zero =>
-    intro _ r as _
-    exact ⟨r, by simp [deferredFrom, secondPass]⟩
+    intro _ r as hM
+    refine ⟨r, by simp [deferredFrom, secondPass], hM.congr ?_⟩
+    intro k f p hc
+    constructor
+    · intro _; trivial
+    · intro _
+      by_cases hd : DirectIdx base all gen k
+      · exact Or.inl hd
+      · exact Or.inr (Nat.zero_le k)
   | succ n ih =>
     intro hn r as hM
     have hlt : n < all.length := by omega
@@ -441,10 +450,12 @@ theorem near_secondPass (hl : LinkFree base) (all : List FileRec) (hplan : NearP
             have hne : p ≠ all[n].rel := by rw [hff]; exact hc'.2.2
             simpa [hne] using hdef
 
-/-- the dry run of a near plan ends successfully, whatever the strategy and the answers -/
+/-- the dry run of a near plan ends successfully, whatever the strategy and the answers, and in its final state
+    every changed file has moved -/
 theorem near_plan_dry_done (hl : LinkFree base) (files : List FileRec) (hplan : NearPlan base files gen)
     (strategy : Strategy) (answers : List Answer) :
-    (execute dryRenamer { base := base } files gen strategy answers).2 = .done := by
+    (execute dryRenamer { base := base } files gen strategy answers).2 = .done ∧
+    Moved base files gen (fun _ => True) (execute dryRenamer { base := base } files gen strategy answers).1.st := by
   have h0 : Moved base files gen (fun k => k < 0 ∧ DirectIdx base files gen k) ({ base := base } : DryState) := by
     refine ⟨rfl, fun x => ?_⟩
     simp [C05.vexists]
@@ -462,12 +473,13 @@ theorem near_plan_dry_done (hl : LinkFree base) (files : List FileRec) (hplan : 
     · rintro (hd | h)
       · exact ⟨by omega, hd⟩
       · omega
-  obtain ⟨r2, hsp⟩ := near_secondPass hl files hplan strategy files.length (Nat.le_refl _) r1 answers hM1'
+  obtain ⟨r2, hsp, hM2⟩ := near_secondPass hl files hplan strategy files.length (Nat.le_refl _) r1 answers hM1'
   unfold execute
   rw [hfp]
   simp only [List.nil_append]
   rw [List.take_length] at hsp
   rw [hsp]
+  exact ⟨rfl, hM2⟩
 
 /-- **C02, chains visited from the near end (name mode).**  On a link-free tree, a plan in which every occupied
     destination is the current path of a later file that is renamed itself — any number of chains of any length,
@@ -484,12 +496,46 @@ theorem near_chain_succeeds_name_mode (hw : WF base) (hl : LinkFree base)
   have hnc : ∀ k f, files[k]? = some f → ∀ p, gen k = .path p → p ≠ f.rel → C05.NameCall base f.inputDir f.rel p :=
     fun k f hf p hg hne => (hplan.shape ⟨hf, hg, hne⟩).1
   obtain ⟨_, hout⟩ := C05.dry_run_predicts_name_mode base hw hl files gen strategy answers hnc hnocustom
-  have hdone := near_plan_dry_done hl files hplan strategy answers
+  have hdone := (near_plan_dry_done hl files hplan strategy answers).1
   have hreal : (execute realNameRenamer { fs := base } files gen strategy answers).2 = .done := by rw [hout, hdone]
   refine ⟨hreal, ?_⟩
   intro hs
   subst hs
   exact success_reports_exactly_the_plan realNameRenamer { fs := base } files gen answers _ (Prod.ext rfl hreal)
+
+/-- **… and the plan has been applied (paths).**  After that run the real tree contains exactly: the generated
+    path of every renamed file, and every initial path that is not the source of a renamed file — nothing else exists,
+    nothing else is missing; the tree is still well formed and (for a run without override: `stop`, `ignore`) its
+    leaves — identity, kind, content — are exactly the initial ones. -/
+theorem near_chain_final_paths (hw : WF base) (hl : LinkFree base)
+    (files : List FileRec) (strategy : Strategy) (answers : List Answer)
+    (hplan : NearPlan base files gen) (hnocustom : ∀ q, Answer.custom q ∉ answers) :
+    let final := (execute realNameRenamer { fs := base } files gen strategy answers).1.st.fs
+    (∀ x, lexists final x = true ↔
+      ((∃ k f p, Chg files gen k f p ∧ absKey f.inputDir p = x) ∨
+       (lexists base x = true ∧ ¬ ∃ k f p, Chg files gen k f p ∧ absKey f.inputDir f.rel = x))) ∧
+    WF final ∧ (NoOverride strategy answers → leaves final = leaves base) := by
+  intro final
+  have hnc : ∀ k f, files[k]? = some f → ∀ p, gen k = .path p → p ≠ f.rel → C05.NameCall base f.inputDir f.rel p :=
+    fun k f hf p hg hne => (hplan.shape ⟨hf, hg, hne⟩).1
+  have h0 : C05.NameSim base { fs := base } { base := base } :=
+    ⟨rfl, rfl, hw, hl, hl, fun _ => rfl, fun p => by simp [C05.vexists]⟩
+  obtain ⟨_, _, hS⟩ := C05.runs_agree_on (C05.name_mode_simulation base) _ _ h0 files gen strategy answers hnc
+    (fun f _ q hq => absurd hq (hnocustom q))
+  obtain ⟨_, _, hwf, _, _, _, hlex⟩ := hS
+  obtain ⟨_, hM⟩ := near_plan_dry_done hl files hplan strategy answers
+  refine ⟨fun x => ?_, hwf, ?_⟩
+  · show lexists (execute realNameRenamer { fs := base } files gen strategy answers).1.st.fs x = true ↔ _
+    rw [hlex x, hM.2 x]
+    constructor
+    · rintro (⟨k, f, p, _, hc, e⟩ | ⟨hb, hn⟩)
+      · exact Or.inl ⟨k, f, p, hc, e⟩
+      · exact Or.inr ⟨hb, fun ⟨k, f, p, hc, e⟩ => hn ⟨k, f, p, trivial, hc, e⟩⟩
+    · rintro (⟨k, f, p, hc, e⟩ | ⟨hb, hn⟩)
+      · exact Or.inl ⟨k, f, p, trivial, hc, e⟩
+      · exact Or.inr ⟨hb, fun ⟨k, f, p, _, hc, e⟩ => hn ⟨k, f, p, hc, e⟩⟩
+  · intro hno
+    exact (C01.no_loss false base hw none files gen strategy answers hno).1
 
 /-- the hypotheses are satisfiable: the chain `a → b`, `b → c` visited from its near end (`a` first: its
     destination is the current name of the later file `b`, which moves to the absent name `c`) is a near plan -/
